@@ -112,7 +112,10 @@ def ser_result(r):
     if r is None or isinstance(r, (bool, int, E.Expr)) or is_array(r):
         if is_array(r) and type(r) not in (A.BoolArray1D, A.IntArray1D, A.BoolArray2D, A.IntArray2D):
             return ("ok", "untyped-array " + repr(r.shape))
-        return ("ok", tok(r))
+        try:
+            return ("ok", tok(r))
+        except TypeError as ex:      # a tree with a non-expression operand (e.g. an array inside a node)
+            return ("ok", "unserialisable-tree: %s" % ex.args[0][:60].split(" object at")[0])
     return ("ok", "unknown-object " + type(r).__name__)
 
 
